@@ -148,10 +148,13 @@ def install(ctx, repo, probes):
         if not R.tp_is_integral(p):
             # a whole-second instant written with decimal hours in quarter
             # hours (exact in floats, also when re-zoned by quarter hours)
-            if not (R.tp_form(p) == "h" and R.tp_is_dyadic(p, 4) and
+            # (or eighths / sixteenths of an hour: 450 s, 225 s)
+            if not (R.tp_form(p) == "h" and R.tp_is_dyadic(p, 16) and
                     (off - p_off) % 15 == 0 and p_off % 15 == 0):
                 return None
             ctx.cls("p/decimal-hour-quarter")
+            if not R.tp_is_dyadic(p, 4):
+                ctx.cls("p/decimal-hour-sixteenth")
         if ctx.t_zone is not None:
             # the workload knows which zone t was given ("" = none): the
             # oracle must not depend on the library's own unknown flag
@@ -228,6 +231,7 @@ def install(ctx, repo, probes):
     for s in ("time", "dom", "doy", "week", "dow", "time+dom", "time+doy",
               "time+week", "time+dow"):
         ctx.target("shape/" + s)
+    ctx.target("p/decimal-hour-quarter", "p/decimal-hour-sixteenth")
     ctx.target("zone/given", "zone/unknown", "already-matching",
                "built/parser", "built/constructor", "order/t+p", "order/p+t")
 
@@ -563,12 +567,14 @@ def workload(ctx, repo):
             # p written with decimal hours (a quarter-hour instant), in an
             # offset a multiple of 15 minutes, t in a zone minutes away
             qoff = rng.choice(((0, 0), (5, 30), (0, 45), (-3, -30), (1, 0)))
-            inst_q = inst - inst % 900
+            grain = (900, 450, 225)[(k // 12) % 3]
+            inst_q = inst - inst % 900 + (grain if grain < 900 else 0) * \
+                (1 + 2 * ((k // 36) % 2))
             pkw = gen.tp_from_instant(rng, MODE, inst_q, offset=qoff,
                                       allow_2400=False)
             mins = pkw.pop("minute_of_hour")
-            pkw.pop("second_of_minute")
-            pkw["hour_of_day_decimal"] = mins / 60.0
+            secs = pkw.pop("second_of_minute")
+            pkw["hour_of_day_decimal"] = (mins * 60 + secs) / 3600.0
             if "t" in tdesc and "time_zone_hour" in tdesc["t"]:
                 t_off = rng.choice(((0, 30), (0, 0), (5, 45), (-3, -45)))
                 tdesc = dict(tdesc)
